@@ -1057,35 +1057,16 @@ class AssumedContracts(BoundedContract):
         return "%s(%s%s)" % (f, ", ".join("%#x" % v for v in vals), "".join(", %s=%d" % kv for kv in params.items()))
 
     def run_custom(self, findings, seed):
-        # native calls happen in ONE child process per chunk (a crash of the C code must not take the checker down)
-        import json as _json
-        res = BoundedContract.run_custom(self, findings, seed)
-        return res
+        # native calls happen in ONE child process per chunk (a crash of the C code must not take the checker down), started
+        # before the per-case loop so that the per-case time limit does not apply to the whole batch
+        self._run_batch()
+        return BoundedContract.run_custom(self, findings, seed)
 
     _batch = None
 
     def check(self, case):
         if self._batch is None:
-            cs = [c for _, c in self.my_cases()]
-            code = ("import sys, json; sys.path.insert(0, %r); import props.C04 as c\n"
-                    "cs = json.load(open(sys.argv[1]))\n"
-                    "for f, vals, params in cs:\n"
-                    "    sys.stderr.write('R %%d\\n' %% c._native(f, [int(v) for v in vals], params)); sys.stderr.flush()\n" % HERE)
-            d = tempfile.mkdtemp(prefix="c04r_")
-            import json
-            with open(os.path.join(d, "cases.json"), "w") as f:
-                json.dump([[c[0], [str(v) for v in c[1]], c[2]] for c in cs], f)
-            py = os.path.join(HERE, ".venv312", "bin", "python")
-            try:
-                p = subprocess.run([py, "-c", code, os.path.join(d, "cases.json")], stdout=subprocess.PIPE, stderr=subprocess.PIPE,
-                                   timeout=600, cwd=HERE, env=dict(os.environ, PYTHONDONTWRITEBYTECODE="1"))
-                lines = [l for l in p.stderr.decode(errors="replace").splitlines() if l.startswith("R ")]
-                self._batch = {"results": [int(l.split()[1]) for l in lines], "stdout": p.stdout.decode(errors="replace"),
-                               "status": p.returncode, "index": dict((self.show(c), i) for i, c in enumerate(cs))}
-            except subprocess.TimeoutExpired:
-                self._batch = {"results": [], "stdout": "", "status": "timeout", "index": dict((self.show(c), i) for i, c in enumerate(cs))}
-            import shutil
-            shutil.rmtree(d, ignore_errors=True)
+            self._run_batch()
         f, vals, params = case
         i = self._batch["index"][self.show(case)]
         if i >= len(self._batch["results"]):
@@ -1099,6 +1080,29 @@ class AssumedContracts(BoundedContract):
         if self._batch["stdout"] and f in ("bignum_sdiv", "bignum_smod"):
             return (False, "the compiled code wrote %r to stdout during the %s cases" % (self._batch["stdout"][:30], f), True)
         return (True, "", True)
+
+    def _run_batch(self):
+        if True:
+            cs = [c for _, c in self.my_cases()]
+            code = ("import sys, json; sys.path.insert(0, %r); import props.C04 as c\n"
+                    "cs = json.load(open(sys.argv[1]))\n"
+                    "for f, vals, params in cs:\n"
+                    "    sys.stderr.write('R %%d\\n' %% c._native(f, [int(v) for v in vals], params)); sys.stderr.flush()\n" % HERE)
+            d = tempfile.mkdtemp(prefix="c04r_")
+            import json
+            with open(os.path.join(d, "cases.json"), "w") as f:
+                json.dump([[c[0], [str(v) for v in c[1]], c[2]] for c in cs], f)
+            py = os.path.join(HERE, ".venv312", "bin", "python")
+            try:
+                p = subprocess.run([py, "-c", code, os.path.join(d, "cases.json")], stdout=subprocess.PIPE, stderr=subprocess.PIPE,
+                                   timeout=1200, cwd=HERE, env=dict(os.environ, PYTHONDONTWRITEBYTECODE="1"))
+                lines = [l for l in p.stderr.decode(errors="replace").splitlines() if l.startswith("R ")]
+                self._batch = {"results": [int(l.split()[1]) for l in lines], "stdout": p.stdout.decode(errors="replace"),
+                               "status": p.returncode, "index": dict((self.show(c), i) for i, c in enumerate(cs))}
+            except subprocess.TimeoutExpired:
+                self._batch = {"results": [], "stdout": "", "status": "timeout", "index": dict((self.show(c), i) for i, c in enumerate(cs))}
+            import shutil
+            shutil.rmtree(d, ignore_errors=True)
 
 
 # ======================================================================================================
